@@ -134,7 +134,7 @@ def check(spec, stats=None):
 def strategy(draw):
     r = draw(run_spec(families=ALL_FAMILIES, n_max=8, jac_modes=("callable", "callable", "callable", None, "2-point", "3-point"),
                       maxiter=(0, 40), maxfun=(1, 200), units=True, ftols=(0.0, 1e-12, 1e-5, 1e-2, 0.3), gtols=(1e-8, 1e-5, 1e-3, 1e-2, 1e-1),
-                      with_scaler=True, with_ftarget=True, with_callback_stop=True, gtol_callable=True))
+                      with_scaler=True, with_ftarget=True, with_callback_stop=True, gtol_callable=True, extras=True))
     nr = draw(st.sampled_from([0, 1, 2, 3]))
     restarts = []
     for _ in range(nr):
